@@ -38,7 +38,7 @@ inductive Op (G : Type) where
   | submit
   /-- an event the editor does not react to -/
   | noop
-  deriving Repr
+  deriving Repr, DecidableEq
 
 def Ed.WF {G : Type} (s : Ed G) : Prop := s.cursor ≤ s.text.length
 
